@@ -1353,6 +1353,16 @@ def c12_oracle(script, rec):
                            "(cap=%d, fsync/close/open fail=%s)" % (op, len(text), cap, flags))
             if not must_fail and r == "i0":
                 bad.append("'%s' reported failure although nothing failed" % op)
+            # the error type after the call: an I/O failure is reported as such, a success leaves 'none'
+            nxt = al[i + 1] if i + 1 < len(al) else None
+            if nxt and nxt[0] == "dump":
+                e = next((l for l in nxt[1] if l.startswith("E ")), None)
+                if e is not None:
+                    et = e.split(" ")[1]
+                    if r == "i0" and et != "1":
+                        bad.append("'%s' failed but config_error_type() is %s, not CONFIG_ERR_FILE_IO" % (op, et))
+                    if r == "i1" and et != "0":
+                        bad.append("'%s' succeeded but config_error_type() is %s" % (op, et))
         elif f[0] == "fs" and f[1] == "cat" and text is not None:
             got = bytes.fromhex(r[2:]) if r.startswith("sh") else None
             if got != text:
@@ -1569,6 +1579,30 @@ def run_c03(ctx):
             deep = max(t.count(b"{"), t.count(b"("), t.count(b"[")) > 150
             battery = [x for x in C03_BATTERY if not (deep and x in ("dump", "write"))]
             cases.append("\n".join(body + battery) + "\n")
+        # an include function that expands one directive into several files, the read aborting at each position of
+        # the list (syntax error, missing file, directory, duplicate name) and succeeding; nested one level too
+        names = [b"m0.cfg", b"m1.cfg", b"m2.cfg"]
+        nmulti = 0
+        for bad_at in (None, 0, 1, 2):
+            for kind in ("syntax", "missing", "dir", "dup"):
+                files = {nm: b"v%d = %d;\n" % (i, i) for i, nm in enumerate(names)}
+                extra = ["incfn multi %s" % ",".join(hx(x) for x in names)]
+                if bad_at is not None:
+                    if kind == "syntax":
+                        files[names[bad_at]] = b"w = 1;\n= oops;\n"
+                    elif kind == "dup":
+                        files[names[bad_at]] = b"v0 = 7;\nv0 = 8;\n"
+                    else:
+                        del files[names[bad_at]]
+                        if kind == "dir":
+                            extra.append("fs dir %s" % hx(names[bad_at]))
+                elif kind != "syntax":
+                    continue
+                for top in (b"@include \"x\"\nafter = 1;\n", b"g : {\n@include \"x\"\n};\nh : { @include \"y\"\n};\n"):
+                    body = forest_script(top, files, ["readf", "reads", "readst"][nmulti % 3], extra)[:-1]
+                    cases.append("\n".join(body + C03_BATTERY) + "\n")
+                    nmulti += 1
+        res.distribution["multi_path_include_cases"] = nmulti
         res.distribution["inputs"] = len(ins)
         res.distribution["bytes"] = sum(len(t) for t in ins)
         res.distribution["max_len"] = max(len(t) for t in ins)
@@ -2528,6 +2562,43 @@ def c11_cases(rng, nforests, max_files):
             f3 = dict(files)
             f3[names[-1]] = f3[names[-1]] + b"\n@include \"" + names[-1] + b"\"\n"      # a cycle
             cases.append("\n".join(forest_script(top, f3, "readf")) + "\n")
+    # many file names in one read: ctx->filenames grows (and moves) while include frames are still open; the names
+    # reported for settings and errors of the outer files afterwards must still be the right strings
+    for nleaf, tail in ((33, b"o_after = 2;\n"), (40, b"o_after = 2;\n"), (40, b"= oops;\n"), (70, b"o_after = [1, \"s\"];\n")):
+        files = {}
+        outer = b""
+        for i in range(nleaf):
+            nm = b"leaf%02d.cfg" % i
+            files[nm] = b"l%02d = %d;\n" % (i, i)
+            outer += b"@include \"" + nm + b"\"\n"
+            if i == nleaf // 2:
+                files[b"mid.cfg"] = b"@include \"leaf00.cfg\"\nm_after = 5;\n"
+                outer += b"mid : {\n@include \"mid.cfg\"\n};\n"
+        files[b"outer.cfg"] = outer + tail
+        top = b"@include \"outer.cfg\"\nt_after = 1;\n"
+        for entry in ("readf", "reads"):
+            cases.append("\n".join(forest_script(top, files, entry)) + "\n")
+        stats["many_files"] = stats.get("many_files", 0) + 2
+    many = [b"leaf%02d.cfg" % i for i in range(36)]
+    files = {nm: b"q%d = %d;\n" % (i, i) for i, nm in enumerate(many)}
+    cases.append("\n".join(forest_script(b"@include \"x\"\nafter = 1;\n= oops\n", files, "readf", ["incfn multi %s" % ",".join(hx(x) for x in many)])) + "\n")
+    # an include function that returns several paths, and a read that aborts before the last of them is visited
+    for bad_at, kind in ((0, "syntax"), (1, "syntax"), (1, "missing"), (2, "dup"), (1, "dir")):
+        names = [b"m0.cfg", b"m1.cfg", b"m2.cfg", b"m3.cfg"]
+        files = {nm: b"v%d = %d;\n" % (i, i) for i, nm in enumerate(names)}
+        extra = ["incfn multi %s" % ",".join(hx(x) for x in names)]
+        if kind == "syntax":
+            files[names[bad_at]] = b"= oops;\n"
+        elif kind == "dup":
+            files[names[bad_at]] = b"v0 = 7;\n"
+        else:
+            del files[names[bad_at]]
+            if kind == "dir":
+                extra.append("fs dir %s" % hx(names[bad_at]))
+        for top in (b"@include \"x\"\nafter = 1;\n", b"g : {\n@include \"x\"\n};\n"):
+            for entry in ("readf", "reads"):
+                cases.append("\n".join(forest_script(top, files, entry, extra)) + "\n")
+        stats["multi_abort"] = stats.get("multi_abort", 0) + 4
     # a second read on the same object after a read that recorded file names but left no setting behind (failed
     # before the first setting, or read a file without settings): the first read's names must be released too
     for first in ([b"@include \"missing.cfg\"\nx = 1;\n", {}], [b"# only a comment\n", {}], [b"@include \"e.cfg\"\n", {b"e.cfg": b"\n\n"}],
